@@ -312,6 +312,11 @@ where
     // replace the active blob while close() waits for the lock): settle for half of the closes
     ctx.active_at_close.set(None);
     *ctx.served_at_close.borrow_mut() = storage.records_count_detailed().await.iter().map(|x| x.0).collect();
+    {
+        let last = ctx.mismatch_keys_last.borrow();
+        let same_records = last.1 == crate::queries::record_counts(ctx);
+        *ctx.mismatch_before_close.borrow_mut() = if same_records && ctx.plan.faults.is_empty() { Some(last.0.clone()) } else { None };
+    }
     let pick = crate::rng::mix_all(&[ctx.plan.sched.seed, 21, ctx.world.seq()]) % 2 == 0;
     if pick && settle(ctx).await {
         let has = storage.has_active_blob().await;
